@@ -2,6 +2,7 @@
 import collections
 import inspect
 
+import warnings
 import numpy as np
 from sklearn.base import clone
 
@@ -42,7 +43,7 @@ def _objects():
     out += [("clf", "pwc_mean"), ("clf", "pwc_shared_dict")]
     for name in models.REGRESSORS:
         out.append(("reg", name))
-    out += [("reg", "nic_dict")]
+    out += [("reg", "nic_dict"), ("reg", "sk_sgd_pf")]
     for name in streams.BM_NAMES:
         out.append(("bm", name))
     for name in streams.STRAT_NAMES:
@@ -93,6 +94,10 @@ def _make_est(fam, name, shared):
         return f([0, 1, 2], np.nan, None, 0), multi
     if name == "nic_dict":
         return NICKernelRegressor(metric_dict=shared if shared is not None else {"gamma": 0.5}, random_state=0), False
+    if name == "sk_sgd_pf":
+        from sklearn.linear_model import SGDRegressor
+        from skactiveml.regressor import SklearnRegressor
+        return SklearnRegressor(SGDRegressor(random_state=0, max_iter=30, tol=None), random_state=0), False
     return models.REGRESSORS[name](), False
 
 
@@ -281,6 +286,32 @@ def run_estimator(desc):
             pass
     finally:
         steps.end()
+    # ---- an incremental learner whose earlier fit saw no label at all has learned nothing: partial_fit(C) on it equals
+    #      partial_fit(C) on a fresh object (the documented history of both is C only)
+    if has_pf and not multi and not viol:
+        XC, yC = _data(rng, kind, multi)
+        try:
+            steps.begin()
+            used2, _ = _make_est(fam, name, None)
+            fresh3, _ = _make_est(fam, name, None)
+            with warnings.catch_warnings():
+                warnings.simplefilter("ignore")
+                used2.fit(XB, np.full(len(XB), np.nan))
+                used2.partial_fit(XC, yC)
+                fresh3.partial_fit(XC, yC)
+            u_out, f_out = _predict_all(used2, Q, fam), _predict_all(fresh3, Q, fam)
+            contracts.count("C13.partial_fit-after-label-free-fit-oracle")
+            for k in f_out:
+                if not np.allclose(u_out[k], f_out[k], rtol=1e-7, atol=1e-9, equal_nan=True):
+                    add("partial_fit-after-label-free-fit-differs-from-fresh-partial_fit:%s" % k,
+                        "fit(X, all labels missing) then partial_fit(C): %r vs fresh partial_fit(C): %r" % (
+                            np.asarray(u_out[k][0]).tolist(), np.asarray(f_out[k][0]).tolist()))
+        except steps.StepBudgetExceeded as ex:
+            add("step-budget-exceeded", str(ex))
+        except Exception:
+            contracts.count("C13.partial_fit-after-label-free-fit-not-admissible")
+        finally:
+            steps.end()
     symbolic = name in ("pwc_mean", "pwc_shared_dict", "nic_dict", "pwc", "mixture", "annot_lr", "nic", "nw") or "pwc" in name
     return {"status": "ok", "violations": viol, "nontrivial": bool(nfits >= 2 or symbolic),
             "nt_key": "%s|%s|%s" % (fam, name, ops), "cells": ["%s|%s" % (fam, name)], "monitors": contracts.drain_evals(),
